@@ -69,6 +69,15 @@ func runC14(res *lib.Result, tier string, seed int64, args []string) error {
 			base = genScopeProgram(r)
 			res.Dist("program.non-unique-names")
 		}
+		if pi%10 == 5 {
+			// fixed shape (every tier): callbacks passed to a method call that is used as an EXPRESSION (initialiser, return
+			// value, string method): their parameters and locals are in scope inside them
+			nonUnique = false
+			base = "local aba1 = 1\nlocal abl2 = {}\nlocal abr3 = abl2:abmap(function(abi4)\n  local abt5 = abi4\n  print(abt5)\n  return abt5\nend)\n" +
+				"local acs6 = (\"x\"):gsub(\".\", function(abp7)\n  local abq8 = abp7\n  print(abq8)\n  return abq8\nend)\nprint(abr3, acs6)\n" +
+				"abl2:abeach(function(abe9)\n  local abf10 = abe9\n  print(abf10)\nend)\n"
+			res.Dist("program.colon-call-callbacks")
+		}
 		multiG := pi%3 == 0
 		if multiG {
 			// globals defined as targets of a multiple assignment, also targets without a value of their own
